@@ -1226,7 +1226,7 @@ func spellingVariants(vals map[string]interface{}) []map[string]interface{} {
 }
 
 func isTokenName(k string) bool {
-	if len(k) < 2 || (k[0] != 't' && k[0] != 'w') {
+	if len(k) < 2 || (k[0] != 't' && k[0] != 'w' && k[0] != 'a' && k[0] != 'b') {
 		return false
 	}
 	for _, c := range k[1:] {
